@@ -91,8 +91,43 @@ def retype_scenarios(ctx, out):
                 hist.append(['store', v])
             except Exception:   # noqa
                 pass
-        f.eType = t2[1]
-        hist.append(['retype', t1[0], t2[0]])
+        # an ordinary observer on the FEATURE being re-typed: it either writes (a migration: the new type is already in
+        # force inside the callback) or vetoes by raising (the re-typing has happened all the same)
+        mode = rng.choice([None, None, 'writes', 'raises'])
+        inside = []
+        if mode:
+            from pyecore.notification import EObserver
+
+            def cb(nf, mode=mode):
+                if getattr(nf.feature, 'name', None) != 'eType':
+                    return
+                if mode == 'raises':
+                    raise RuntimeError('veto')
+                w = A()
+                for v, conforming in [(t2[2][0], True), (t2[3][0], False)]:
+                    try:
+                        if many:
+                            w.v.append(v)
+                        else:
+                            w.v = v
+                        r = None
+                    except E.BadValueError:
+                        r = 'BadValueError'
+                    except Exception as e:  # noqa
+                        r = type(e).__name__
+                    inside.append((v, conforming, r))
+            EObserver(f, notifyChanged=cb)
+        try:
+            f.eType = t2[1]
+        except RuntimeError:
+            pass
+        hist.append(['retype', t1[0], t2[0], mode])
+        for v, conforming, r in inside:
+            cnt += 1
+            if (conforming and r is not None) or (not conforming and r != 'BadValueError'):
+                out.fail({'property': 'C03', 'clause': 'accept-after-retype' if conforming else 'reject-after-retype', 'slot': 'inside-observer', 'many': many},
+                         f'inside an observer of the feature while it is re-typed {t1[0]}->{t2[0]}: storing {v!r} gave {r}',
+                         {'scenario': 'retype', 'seed': ctx.seed, 'tier': ctx.tier, 'many': many, 'history': hist + [['store-inside', repr(v)]]})
         for obj, who in ((used, 'used-slot'), (fresh, 'fresh-instance')):
             for v, conforming in [(x, True) for x in t2[2]] + [(x, False) for x in t2[3] + t1[2] if not _conf(x, t2[0])]:
                 cnt += 1
